@@ -1,3 +1,19 @@
 """One predicate per known finding: (sig, case) -> bool.  A predicate names a
 *mechanism* (monitor kind, operation, structural features diagnosed from the
 IR); it never looks at case hashes or random values."""
+
+
+def never(sig, case):
+    """placeholder for fixed entries: a fixed finding suppresses nothing"""
+    return False
+
+
+# ---------------------------------------------------------------- C16
+def c16_block_gap_find_crash(sig, case):
+    """BlockCursor.find / GapCursor.find raise AttributeError: PatternMatch.find assumes a Node context"""
+    return sig.get("monitor") == "find" and sig.get("kind") == "crash" and sig.get("scope") in ("block", "gap") and sig.get("exc") == "AttributeError"
+
+
+def c16_stmt_hole_no_backtracking(sig, case):
+    """a statement hole followed by a pattern that already matches the statement the hole should consume"""
+    return sig.get("monitor") == "find" and sig.get("kind") == "missing_match" and sig.get("mechanism") == "stmt_hole_lookahead_no_backtracking"
